@@ -37,6 +37,10 @@ CHECKS = {
    text="Generated frame sequences (all stream-level frame kinds with flag/priority/padding/increment variants and undefined flag bits, on new, open, half-closed, reset, completed, skipped, even and zero stream ids, with connection frames in between; immediate or gated handlers) are sent one frame at a time; after each, the observed reaction must lie in the set the RFC allows for that state and frame, legal sequences must raise no error, and handler invocations must equal the legally completed requests. Exploration only.",
    note="Trusted: the reaction table of DESIGN appendix A (union of what RFC 7540/9113 permit, so server latitude is never flagged); quiescence from hook counters.",
    ref="6.2 C08, appendix A"),
+ "C09": dict(technique="property-based testing (rapid) of offence placement: catalogue of stream-scoped offences x offence point x in-flight frames among well-formed streams that share HPACK dynamic-table entries; exchange oracle on every non-offending stream",
+   text="Generated connections mix well-formed requests with stream-scoped offences (malformed field, content-length mismatch, oversized body, refused stream, peer RST at four points, handler panic, stream WINDOW_UPDATE overflow/zero) and frames written before the peer could see the server's reaction; all blocks share a vocabulary so later blocks index entries inserted by offending ones. No GOAWAY/EOF may occur and every well-formed request, plus a final probe indexing the whole vocabulary, must be served exactly. Exploration only.",
+   note="Trusted: scripted peer and reference HPACK; the peer behaves as a conforming client (returns connection credit for everything it received).",
+   ref="6.2 C09"),
 }
 PENDING = {}  # id -> reason, for properties not claimed (yet)
 
